@@ -329,18 +329,36 @@ let lp_main guard path tablepath needpath =
               let o_lines = List.rev !obs in
               let get p = List.filter_map (fun l -> match split_ws l with x :: r when x = p -> Some r | _ -> None) o_lines in
               let panicked = List.exists (fun l -> l = "SP") o_lines in
+              (* SENDZ reports signatures (FZ/OZ); for a sample of them the harness adds the frames themselves (FR) *)
+              let hexfr = List.concat (get "FR") in
               let (ifit, iover, isig) =
-                if op = "SEND" then (List.concat (get "FR"), List.concat (get "FO"), false)
+                if op = "SEND" then (hexfr, List.concat (get "FO"), false)
                 else (List.filter (fun x -> x <> "-") (List.concat (get "FZ")), List.filter (fun x -> x <> "-") (List.concat (get "OZ")), true) in
-              let enc f = if isig then frame_sig f else hex_of_bytes f in
-              let mf = List.map enc mfit and mo = List.map enc mover in
+              let desc0 = Printf.sprintf "packet of %d bytes, MTU %d, token %d bytes, mark %s, inface %s, fragmentation %b" (List.length wire) mtu
+                           (List.length tok) (str_opt_n mark) (str_opt_n inface) o.o_frag in
               if panicked then begin
                 diverge c.lid "send-panic" "no panic" "panic";
                 oracle c.lid "send-panic" "sendPacket panicked"
               end else begin
-                if mf <> ifit then diverge c.lid "frames" (trunc (String.concat " " mf)) (trunc (String.concat " " ifit));
-                if mo <> iover then diverge c.lid "oversize-frames" (trunc (String.concat " " mo)) (trunc (String.concat " " iover));
-                (match get "NS" with [[x]] -> if x <> dec_of_n ns then diverge c.lid "next-sequence" (dec_of_n ns) x | _ -> ())
+                (* Projected observables only: C10 fixes neither fragment sizes nor sequence numbers, so the frames are not compared with
+                   the model's frames.  The extracted predicate c10_frames_sem follows the split the implementation chose: the model's peer
+                   must reassemble exactly the packet (once, with token and mark) from the emitted frames in three arrival orders. *)
+                if ifit = [] && iover = [] && mfit <> [] && mover = [] then
+                  oracle c.lid "packet-not-sent" ("nothing was handed to the transport although the packet can be sent within the MTU: " ^ desc0)
+                else if iover = [] && (op = "SEND" || hexfr <> []) && ifit <> [] then begin
+                  let next = match get "NS" with [[x]] -> n_of_dec x | _ -> ns in
+                  let code = int_of_string (dec_of_n (c10_frames_sem o seq next tok inface mark wire (List.map unhex hexfr))) in
+                  let nfr = List.length hexfr in
+                  (match code with
+                   | 0 -> ()
+                   | 1 -> oracle c.lid "frame-undecodable" (Printf.sprintf "a frame handed to the transport is not a decodable LpPacket (%d frames): %s" nfr desc0)
+                   | 2 | 3 | 4 ->
+                       let ord = if code = 2 then "in the order sent" else if code = 3 then "in reverse order" else "rotated by half" in
+                       oracle c.lid ("peer-reassembly-" ^ (if code = 2 then "inorder" else if code = 3 then "reversed" else "rotated"))
+                         (Printf.sprintf "a peer receiving the %d emitted frames %s does not deliver exactly the packet bytes, once, with its PIT token and congestion mark: %s" nfr ord desc0)
+                   | 5 -> oracle c.lid "inface-indication" (Printf.sprintf "the incoming-face indication on the %d emitted frames is not the one of the packet (enabled=%b): %s" nfr o.o_ifi desc0)
+                   | _ -> oracle c.lid "sequence-window" (Printf.sprintf "a frame carries a sequence number outside [%s, %s) (sequence before the packet, next sequence afterwards): the next packet can collide with this one: %s" (dec_of_n seq) (dec_of_n next) desc0))
+                end
               end;
               (* oracle on the implementation's frames (sizes only are needed) *)
               let sizes l = if isig then List.map (fun s -> int_of_string (List.hd (String.split_on_char ':' s))) l
